@@ -392,4 +392,5 @@ class Ctx:
         c.primary = self.primary
         c.primary_params = self.primary_params
         c.lazy_rel = getattr(self, 'lazy_rel', False)
+        c.soft = list(getattr(self, 'soft', []))
         return c
